@@ -16,7 +16,7 @@ def run(s):
         prop = json.load(open(os.path.join(V, "seeded", s, "meta.json"))).get("check", prop)
     except Exception:
         pass
-    p = subprocess.run(["bash", os.path.join(V, "tools", "seedrun.sh"), os.path.join(V, "seeded", s), prop, "quick"], stdout=subprocess.PIPE, stderr=subprocess.STDOUT, text=True, env=dict(os.environ, SEED_LINES="400"))
+    p = subprocess.run(["bash", os.path.join(V, "tools", "seedrun.sh"), os.path.join(V, "seeded", s), prop, "quick"], stdout=subprocess.PIPE, stderr=subprocess.STDOUT, text=True, errors="replace", env=dict(os.environ, SEED_LINES="400"))
     out = p.stdout
     det = ("VIOLATION property=%s" % prop) in out and "exit 1" in out
     infra = "INFRA" in out or "exit 2" in out
